@@ -214,7 +214,7 @@ def monitor_tail(chk, shapes):
                 Ds['lost-events'].failed = Ds['lost-events'].failed or ('violated', 'same decisions, different announced states/result depending on report delivery: %s' % (list(outs)[:2],), None, None)
         chk.absorb(ex)
     chk.samples.append({'tail_paths': samples})
-    chk.extra['tail_exploration'] = dict(stats, shapes=[list(s) for s in shapes], outcome_classes_seen=sorted(coverage))
+    chk.extra.setdefault('tail_explorations', []).append(dict(stats, shapes=[list(s) for s in shapes], outcome_classes_seen=sorted(coverage)))
     need = {'parse-error', 'no-update', 'plan-error', 'deferred', 'denied', 'install-ok', 'install-failed'}
     if not need <= coverage:
         Ds['announced-states'].failed = Ds['announced-states'].failed or ('inconclusive', 'vacuous: outcome classes not all reached: %s' % sorted(need - coverage), None, None)
